@@ -241,7 +241,27 @@ Definition ro_decode (f : list N) : option (list N) :=
 Inductive case :=
 | CMv (es : N) (file : list N) (expect : list Z)        (* reader process: MmapVec::open + read all; [-1] = Err *)
 | CRo (file : list N) (expect : list Z)                  (* reader process: ZReorderMap::open + iterate *)
-| CRoEnc (vals : list N) (neg : bool) (file : list N).   (* the builder's file for these values *)
+| CRoEnc (vals : list N) (neg : bool) (file : list N)    (* the builder's file for these values *)
+| COps (trace : list fop) (img : list N).                (* traced file operations of one sync()/put()/save, files numbered
+                                                            1 = target, 2 = temporary; consecutive writes to the temporary
+                                                            file merged by the harness; img = the content published *)
+
+Definition fop_eqb (a b : fop) : bool :=
+  match a, b with
+  | FOpen p c t, FOpen p' c' t' => (p =? p') && Bool.eqb c c' && Bool.eqb t t'
+  | FSetLen p n, FSetLen p' n' => (p =? p') && (n =? n')
+  | FWrite p o d, FWrite p' o' d' => (p =? p') && (o =? o') && eqb_ln d d'
+  | FFsync p, FFsync p' => p =? p'
+  | FRename a1 b1, FRename a2 b2 => (a1 =? a2) && (b1 =? b2)
+  | FUnlink p, FUnlink p' => p =? p'
+  | _, _ => false
+  end.
+Fixpoint ops_eqb (a b : list fop) : bool :=
+  match a, b with
+  | [], [] => true
+  | x :: a', y :: b' => fop_eqb x y && ops_eqb a' b'
+  | _, _ => false
+  end.
 
 Definition zs (xs : list N) : list Z := map Z.of_N xs.
 Definition case_ok (c : case) : bool :=
@@ -261,4 +281,5 @@ Definition case_ok (c : case) : bool :=
           end
       end
   | CRoEnc vs neg f => eqb_ln (ro_encode vs neg) f
+  | COps trace img => ops_eqb trace (mv_sync_ops 1 2 img)
   end.
